@@ -15,7 +15,7 @@ package f1
 //@   requires t != nil
 //@   dyncall scenarios : userSetup
 //@   inv forall j int :: 0 <= j && j < len(scenarios) ==> scenarios[j] != nil
-//@   modifies t.failed, t.teardownFailed, t.teardownStack, marked, G20set, G20ret, G20n
+//@   modifies t.failed, t.teardownFailed, t.teardownStack, Gmarks, G20set, G20ret, G20n
 //@   loop 0 invariant -1 <= rangeindex && rangeindex < len(scenarios) && len(run) == rangeindex + 1 && G20set == old(G20set) + rangeindex + 1
 //@   loop 0 invariant forall j int :: 0 <= j && j <= rangeindex ==> run[j] == G20ret[j] && run[j] != nil
 //@   ghost before call dyn:scenarios : assert [order] G20set == old(G20set) + rangeindex + 1 ; assert [handle] arg0 == t ; G20set = G20set + 1
@@ -31,7 +31,7 @@ package f1
 //@   requires t != nil
 //@   dyncall run : userIter
 //@   inv len(run) == G20n && (forall j int :: 0 <= j && j < len(run) ==> run[j] == G20ret[j] && run[j] != nil)
-//@   modifies t.failed, t.teardownFailed, t.teardownStack, marked, G20run
+//@   modifies t.failed, t.teardownFailed, t.teardownStack, Gmarks, G20run
 //@   loop 0 invariant -1 <= rangeindex && rangeindex < len(run) && G20run == old(G20run) + rangeindex + 1
 //@   ghost before call dyn:run : assert [order] G20run == old(G20run) + rangeindex + 1 ; assert [component] callee == G20ret[rangeindex + 1] ; assert [handle] arg0 == t ; G20run = G20run + 1
 //@   ensures [all] G20run == old(G20run) + len(run)
